@@ -7,6 +7,7 @@ verus! {
 global size_of usize == 8;
 
 //@ include prelude/std_specs.rs
+//@ include units/dltcore/part.rs
 
 // R11: &str by bytes. `blen` = length in bytes; `boundary(s, k)`: byte offset k is a character boundary (0 and blen always are);
 // indexing a str by a byte range panics unless both ends are boundaries inside the text; `get(range)` answers None instead;
@@ -199,6 +200,24 @@ impl VxLogcatTimes {
 //@|    requires old(vx_self).inv(), 0 <= threadtime.us() <= i64::MAX as int,   // parse_mmdd_str never goes below the year 1970
 //@|        threadtime.us() < old(vx_self).max_threadtime_treat_as_timestamp_start.us() ==> threadtime.us() >= 43_200_000_000, // ASSUMED: a date taken as 'previous year' is later in the year than the reference date, hence not within the first 12 h of 1970
 //@|    ensures final(vx_self).inv(), // O:asc.threadtime.times_no_overflow (+ the arithmetic obligations of the statement: no overflow whatever date the line carries)
+//@ end
+
+// LogCat2DltMsgIterator::get_apid_info_msg: the statements that build the control message announcing a tag's APID (R12: the iterator
+// reduced to the fields read here; the payload built in front of them is any byte vector - its length is 15 + the length of the tag)
+pub struct VxLogcatHdr { pub index: u32, pub ecu: DltChar4, pub ctid: DltChar4, pub htyp: u8, pub len_wo_payload: u16 }
+impl VxLogcatHdr {
+    pub fn timestamp_dms_from(&self, timestamp_us: u64) -> (r: u32) { (timestamp_us / 100) as u32 }
+}
+impl DltChar4 {
+    #[verifier::external_body]
+    pub fn to_owned(&self) -> (r: DltChar4) ensures r == *self { unimplemented!() }
+}
+//@ extract src/utils/logcat2dltmsgiterator.rs region `let index = self.index;` .. `$end` in LogCat2DltMsgIterator::get_apid_info_msg
+//@   sig pub fn apid_info_msg(vx_self: &mut VxLogcatHdr, apid: &DltChar4, reception_time_us: u64, timestamp_us: u64, payload: Vec<u8>) -> (r: Option<DltMessage>)
+//@   sub R12 `self` => `vx_self` *
+//@   spec
+//@|    requires old(vx_self).index < u32::MAX, // fewer than 2^32 messages (ASSUMED)
+//@|    ensures true, // O:asc.logcat.apid_msg_no_overflow (whatever the length of the tag)
 //@ end
 
 // Asc2DltMsgIterator::next, a CAN line: from the position of the data-length capture to the decoded data bytes
